@@ -22,7 +22,7 @@ CLAIMED = {
    technique="deterministic simulation: seeded instruction-level interleaving + lock-step reference model",
    ref="§5 C04"),
  "C12": dict(
-   text="Seeded exploration of schedules: raw NetQASM subroutines with up to three outstanding entanglement requests (create/receive, keep/measure, 1-2 sockets, 1-2 remote nodes, 1-2 applications) run on the real controller while the seeded scheduler orders instruction steps, link-layer deliveries (early ones included) and retry timers; a reference matcher over the recorded issue/delivery history decides slice placement, qubit mapping, exactly-once consumption and queue retirement; step monitors decide wait instructions and non-overwriting of allocated qubits; bounded liveness after the last delivery.",
+   text="Seeded exploration of schedules: raw NetQASM subroutines with up to three outstanding entanglement requests (create/receive, keep/measure, 1-2 sockets, 1-2 remote nodes, 1-2 applications) -- and, in a quarter of the runs, SDK-emitted requests on two real nodes -- run on the real controller(s) while the seeded scheduler orders instruction steps, link-layer deliveries (early ones included) and retry timers; a reference matcher over the recorded issue/delivery history decides slice placement, qubit mapping, exactly-once consumption and queue retirement; step monitors decide wait instructions and non-overwriting of allocated qubits; bounded liveness after the last delivery.",
    note="Trusted: fake link layer (per-key FIFO, cross-key races), retry timer replacing the base class's unbounded recursion, the reference matcher. Requests sharing a key share a type; no message loss between link and controller.",
    technique="deterministic simulation: seeded interleaving of instruction steps, link deliveries and retry timers + history matcher",
    ref="§5 C12"),
